@@ -400,7 +400,7 @@ def run_tar_case(ctx, raw_members, via_job, pre_link=None, fmt=tarfile.GNU_FORMA
             lst = sorted(inside)
         term = '(%s, %s, %s, %s)' % (csegs(sb.canonical(sb.work)),
                                      clist([(sb.canonical(n), k, sb.canonical(l)) for (n, k, l) in seen], cmember),
-                                     cbool(accepted), copt(lst, lambda l: clist(l, csegs)))
+                                     cbool(accepted), '(@None (list (list string)))' if lst is None else copt(lst, lambda l: clist(l, csegs)))
         ctx.sample({'archive': canon['members'][:5], 'accepted': accepted, 'error': ename, 'entries': lst[:6] if lst else lst})
         return (term, canon, {'accepted': accepted, 'error': ename, 'entries': lst})
     finally:
@@ -439,7 +439,7 @@ def run_stage_case(ctx, src_rel, method, via_job):
         if exc is None and not top:
             ctx.fail(canon, '%s staging reported success but created nothing' % method)
         ctx.sample({'stage': canon, 'created': top, 'error': ename}, limit=9)
-        return ('(%s, %s)' % (cstr(canon['source']), copt(top[0] if top else None, cstr)), canon, {'created': top, 'error': ename})
+        return ('(%s, %s)' % (cstr(canon['source']), copt(top[0], cstr) if top else '(@None string)'), canon, {'created': top, 'error': ename})
     finally:
         pool.release(sb, changed)
 
